@@ -213,16 +213,37 @@ func (d *loginDev) play() []byte {
 			at := -1
 
 			for _, k := range sshKeywords {
-				if i := strings.Index(low, k); i >= 0 {
-					e := i + len(k)
-					if k == "no matching" {
-						// the handler reports on the bare keyword already
-						e = i + len(k)
+				i := strings.Index(low, k)
+				if i < 0 {
+					continue
+				}
+
+				e := i + len(k)
+
+				if k == "no matching" {
+					// recognised only once it says what did not match, or lists the peer's offer
+					e = -1
+
+					for _, q := range []string{"no matching host key", "no matching key exchange", "no matching cipher"} {
+						if j := strings.Index(low, q); j >= 0 && (e < 0 || j+len(q) < e) {
+							e = j + len(q)
+						}
 					}
 
-					if at < 0 || e < at {
-						at = e
+					if j := strings.Index(low, "their offer: "); j >= 0 {
+						o := max(i+len(k), j+len("their offer: "))
+						if e < 0 || o < e {
+							e = o
+						}
 					}
+
+					if e < 0 {
+						continue
+					}
+				}
+
+				if at < 0 || e < at {
+					at = e
 				}
 			}
 
